@@ -134,7 +134,7 @@ def main(repo, tag, rest, replay):
     if replay:
         return do_replay(repo, tag, replay)
     configs = CONFIGS_QUICK if tier == "quick" else CONFIGS_THOROUGH
-    n = runs or (25_000 if tier == "quick" else 1_000_000)
+    n = runs or (100_000 if tier == "quick" else 1_500_000)
     t0 = time.time()
     print("[C19] tier=%s seed=%d runs/family=%d builds=%d" % (tier, seed, n, len(configs)))
     try:
